@@ -38,6 +38,7 @@ var mfGuard = guardSpec{
 }
 
 func c17(c *Ctx) {
+	c17InterruptedCreation(c, "C17.7/interrupted-file-creation-is-tolerated")
 	c17CacheMissNotSurfaced(c, "C17.6/chunk-cache-miss-is-not-a-read-error")
 	c17FullReads(c, "C17.5/header-read-is-full")
 	c17RefCountedClose(c, "C17.4/chunk-closed-only-without-readers")
@@ -688,5 +689,40 @@ func c17CacheMissNotSurfaced(c *Ctx, r string) {
 	nGet := len(c.callSites(callTo("embedded/appendable/multiapp.(appendableCache).Get")))
 	if nGet < 3 {
 		c.undecided(r, "floor", fmt.Sprintf("%d lookups of the chunk cache found", nGet))
+	}
+}
+
+// c17InterruptedCreation: a chunk file is created empty and its header is written (and synced) afterwards; a stop in
+// between leaves an empty last chunk that holds nothing, and singleapp.Open (by contract, pinned by its tests) reports
+// an empty file as corrupted metadata. The multi-file appendable therefore looks at the size of the last chunk file
+// before it opens it, so that such a leftover can be created again instead of making the whole log unopenable.
+func c17InterruptedCreation(c *Ctx, r string) {
+	f := c.mustFn(r, "embedded/appendable/multiapp.(*DefaultMultiFileAppendableHooks).OpenInitialAppendable")
+	if f == nil {
+		return
+	}
+	opens := func(in ssa.Instruction) bool {
+		cc := callOf(in)
+		if cc == nil {
+			return false
+		}
+		n := calleeName(cc)
+		return strings.HasSuffix(n, ").OpenAppendable") || n == "embedded/appendable/singleapp.Open"
+	}
+	sizeLooked := func(in ssa.Instruction) bool {
+		cc := callOf(in)
+		return cc != nil && cc.IsInvoke() && cc.Method.Name() == "Size" && strings.Contains(cc.Value.Type().String(), "FileInfo")
+	}
+	if len(sites(f, opens)) == 0 {
+		c.undecided(r, fnName(f), "the opening of the last chunk was not found")
+		return
+	}
+	// only an existing last chunk matters: the branch taken when the directory holds no file creates chunk 0
+	noFiles := whenCond(false, func(a string) bool { return strings.Contains(a, "len(") && strings.Contains(a, "ReadDir") })
+	q := &pathQ{fn: f, fromEntry: true, to: opens, via: sizeLooked, barrier: noFiles}
+	if w := q.bypass(); w != nil {
+		c.fail(r, fnName(f)+":size-before-open", c.pos(w[len(w)-1].Pos()), "the last chunk file of a log is opened without its size having been looked at: an empty file left by an interrupted creation is reported as corrupted metadata and the log (hence the database) does not open")
+	} else {
+		c.ok(r, fnName(f)+":size-before-open", c.pos(f.Pos()), "FileInfo.Size() of the last chunk is consulted on every path to its opening")
 	}
 }
